@@ -3,7 +3,7 @@
    in hand/HandlerProofs.v and hand/HandlerExtra.v.  encoding/json and reflect are not modelled:
    `decode` and `zero` are universally quantified oracles (what encoding/json produces for a
    type, a strictness and a params value; the zero value of a type). *)
-From Coq Require Import List NArith Bool.
+From Coq Require Import List NArith Bool Sorting.Permutation.
 From JV Require Import Bytes Handler HandlerProofs HandlerExtra.
 Import ListNotations.
 
@@ -147,3 +147,19 @@ Print Assumptions c15_field_eligible.
 Theorem c15_field_names_rel : forall fs ns, field_names fs = ns <-> names_rel fs ns.
 Proof. exact field_names_rel. Qed.
 Print Assumptions c15_field_names_rel.
+
+(* One wrapped handler used for many requests - in sequence or at the same time, in whatever
+   order they are taken up - answers every request as if it were the only one: the outcome of a
+   call is a function of (function descriptor, options, params) alone. *)
+Theorem c15_wrap_stateless :
+  forall (decode : ty -> bool -> pvalue -> option value) (zero : ty -> value) fi ps1 p ps2,
+    nth_error (serve decode zero fi (ps1 ++ p :: ps2)) (length ps1) = Some (wrap decode zero fi p) /\
+    length (serve decode zero fi (ps1 ++ p :: ps2)) = length (ps1 ++ p :: ps2).
+Proof. exact serve_stateless. Qed.
+Print Assumptions c15_wrap_stateless.
+
+Theorem c15_wrap_order_independent :
+  forall (decode : ty -> bool -> pvalue -> option value) (zero : ty -> value) fi ps ps',
+    Permutation ps ps' -> Permutation (serve decode zero fi ps) (serve decode zero fi ps').
+Proof. exact serve_permutation. Qed.
+Print Assumptions c15_wrap_order_independent.
